@@ -14,7 +14,7 @@ def needs_space(a, b):
 
 def render(toks, mode, rnd=None, marker_gaps=None):
     """toks: list of spellings (pragma chunks contain their own newlines).
-    mode: 'space' | 'lines' | 'tight' | 'random' | 'markers' | 'sameline'."""
+    mode: 'space' | 'lines' | 'tight' | 'random' | 'markers' | 'sameline' | 'flagged'."""
     out = []
     n = len(toks)
     for i, t in enumerate(toks):
@@ -37,8 +37,12 @@ def render(toks, mode, rnd=None, marker_gaps=None):
         elif mode == "random":
             gap = rnd.choice([" ", "  ", "\t", "\n", " \n\t ", "\n\n"])
         elif mode == "sameline":
-            # every token on a line of its own, each line renumbered to the same number: all tokens share (line, column)
-            gap = "\n# 7 \"same.h\"\n"
+            # every token on a line of its own, each line renumbered to the same number: all tokens share (line, column);
+            # the file name alternates, so that only the file tells neighbouring tokens apart
+            gap = "\n# 7 \"same%d.h\"\n" % (i % 2)
+        elif mode == "flagged":
+            # every token alone on its line, after a linemarker that carries flags
+            gap = "\n# %d \"fl%d.h\" %s\n" % (10 + i, i % 3, ["1", "2", "1 3", "3 4", "2 3 4"][i % 5])
         elif mode == "markers":
             if marker_gaps is not None:
                 hit = i in marker_gaps
